@@ -28,7 +28,7 @@ def kname(K):
                                                    ', field lookup' if K.get('lookup') else '')
 
 
-def extract(mod, rep=None, lookups=True, stubcmp=False):
+def extract(mod, rep=None, lookups=True, stubcmp=False, cbstub=False):
     """-> (table: {(tokname, flags, dz, lookup): {mode: [outcomes]}}, modes, stats)"""
     lay = stepm.Layout(mod)
     tc = stepm.token_classes()
@@ -54,6 +54,7 @@ def extract(mod, rep=None, lookups=True, stubcmp=False):
                     K['mode'] = m
                     K['lookup'] = lk
                     K['stubcmp'] = stubcmp
+                    K['cbstub'] = cbstub
                     todo.append(K)
         if not todo:
             break
